@@ -258,6 +258,27 @@ def run_case(case, ctx):
             accept = {None, exp}
             if openssh and exp == 2048:
                 accept = {None} | set(follow_ok)
+            # "the smallest modulus the server hands out across the tool's fixed probe sequence": a reported size stands for the
+            # whole sequence, so the single-size probes below the smallest modulus learnt so far must all have been made; a fault
+            # costs at most the probe on the connection it hits (each fault of a case selects one connection)
+            if size is not None:
+                learnt, missing = 0, []
+                by_tuple = {(r['min'], r['n'], r['max']): r for r in reqs}
+                r0 = by_tuple.get(SEQ[0])
+                if r0 is not None and r0['answer'] is not None and r0['delivered']:
+                    learnt = r0['answer']
+                for t in SEQ[1:-1]:
+                    if t[0] >= learnt > 0:
+                        break
+                    r_ = by_tuple.get(t)
+                    if r_ is None:
+                        missing.append(t[0])
+                    elif r_['answer'] is not None and r_['delivered'] and (learnt <= 0 or r_['answer'] < learnt):
+                        learnt = r_['answer']
+                if len(missing) > len(case['faults']):
+                    out.append(viol('C12 faulty probe phase: a size is reported although the probe sequence was cut short',
+                                    'alg=%s reported=%r; single-size probes never made: %r (faults: %d)\nrequests/answers/delivered=%r\nfaults=%r' % (
+                                        alg, size, missing, len(case['faults']), [((r['min'], r['n'], r['max']), r['answer'], r['delivered']) for r in reqs], case['faults'])))
             if size is not None and size not in handed:
                 out.append(viol('C12 faulty probe phase: reported a size the server never handed out', 'alg=%s reported=%r handed=%r faults=%r' % (alg, size, handed, case['faults'])))
             elif size not in accept:
